@@ -564,3 +564,66 @@ func ruleDET(c *Ctx, r *Report) {
 	r.ok(rule, "functions-examined", "-", fmt.Sprintf("%d reachable library functions examined", n))
 	r.floor(rule, "reachable library functions", n, 100)
 }
+
+// CALL-STATE (C02/C03/C05/C07/C10/C11; part of PUR-ARG for C14): a call's result depends on that call only.
+func ruleCALLSTATE(c *Ctx, r *Report) {
+	const rule = "CALL-STATE"
+	r.doc(rule, "every Parse call works on a parser and a lexer allocated in that call (no pool, no package-level instance), every field of the parser is initialised from that call's arguments or constants, and no library function writes package-level state: the tree and SQL produced for a query do not depend on earlier calls (e.g. a default field left over from another call)")
+	pr := c.parserRoles()
+	lr := c.lexRoles()
+	if pr.Err != "" || lr.Err != "" || pr.Parse == nil {
+		r.bad(rule, "anchor", "-", "parser / lexer roles unresolved")
+		return
+	}
+	// 1. the parser value the parse loop runs on is an allocation of Parse
+	n := 0
+	for _, b := range pr.Parse.Blocks {
+		for _, in := range b.Instrs {
+			call, ok := in.(*ssa.Call)
+			if !ok || call.Call.StaticCallee() != pr.ParseLoop || len(call.Call.Args) == 0 {
+				continue
+			}
+			n++
+			recv := c.resolve(call.Call.Args[0], nil)
+			if al, ok := recv.(*ssa.Alloc); ok && al.Heap || ok {
+				r.ok(rule, "parser-fresh", c.instrPos(in), "parser allocated in this call")
+			} else {
+				r.bad(rule, "parser-fresh", c.instrPos(in), "the parse loop runs on "+c.key(recv, nil)+", which is not a parser allocated by this call (pooled or shared parser: state such as the default field survives from an earlier call)")
+			}
+		}
+	}
+	r.floor(rule, "parse-loop calls in Parse", n, 1)
+	// 2. no sync.Pool / package-level parser or lexer
+	for _, f := range c.Funcs {
+		if !inLib(f) {
+			continue
+		}
+		for _, b := range f.Blocks {
+			for _, in := range b.Instrs {
+				if call, ok := in.(ssa.CallInstruction); ok {
+					name := calleeFullName(call)
+					if strings.HasPrefix(name, "(*sync.Pool)") || strings.HasPrefix(name, "sync.") {
+						r.bad(rule, fnName(f)+"|"+name, c.instrPos(in), fnName(f)+" uses "+name+": objects are shared between calls")
+					}
+				}
+			}
+		}
+	}
+	// 3. writes to package-level state outside init (as PUR-G)
+	oa := c.originAnalysis()
+	nW := 0
+	for _, fn := range c.Funcs {
+		if !inLib(fn) || fn.Name() == "init" && fn.Synthetic != "" {
+			continue
+		}
+		for _, w := range c.memWrites(fn) {
+			nW++
+			for o := range oa.origins(w.base, map[ssa.Value]bool{}) {
+				if strings.HasPrefix(o, "global:") {
+					r.bad(rule, fnName(fn)+"|"+w.what, c.instrPos(w.in), fmt.Sprintf("%s writes package-level state (%s): later calls see it", fnName(fn), w.what))
+				}
+			}
+		}
+	}
+	r.ok(rule, "no-global-writes", "-", fmt.Sprintf("%d memory writes examined", nW))
+}
